@@ -76,7 +76,7 @@ def random_regex(rng, hostile=False):
 
 
 SOUP = KEYWORDS + ["'a'", '"b"', "x", "y1", "12", "0", "(", ")", "{", "}", ",", "=", "==", "!=", ":=", "<", ">", "<=", ">=", "+", "-", "*", "/", "%",
-                   "-- c\n", "--( b )--", "@/a+/", "@/(a|b)*/", "'", '"', "@/a", "@", "!", ":", "--(", "\\", "#", "'\\", "'\\x4", " ", "\n", "\t"]
+                   "-- c\n", "--( b )--", "--( a)-)--", "--())--", "--(-)--", "--()-)-)--", "---\n", "@/a+/", "@/(a|b)*/", "'", '"', "@/a", "@", "!", ":", "--(", "\\", "#", "'\\", "'\\x4", " ", "\n", "\t"]
 
 
 def mutations(rng, src, limit=None):
